@@ -12,7 +12,7 @@ CHECKS = {
          "Case conversion itself is delegated to the Inflector crate (the documented engine); what is tested is the composition. Programs are sampled; compile errors are inconclusive, never violations. One known finding (flatten prefix missing from sample-group names) is listed in known_findings.json because the macro's own snapshot tests pin the defective output.",
          "DESIGN.md §2 C07"),
  "C10": ("stateful proptest (input/flush/guard sequences) against a reference map per flush epoch; real producer threads for the worker sink; termination by counting flush() calls on a probe; libFuzzer target agg_oracle with the keyed/tee oracle inside (thorough tier)",
-         "Generated sequences of keyed inputs, flushes and merge-on-drop guards through KeyedAggregator, TeeSink (incl. a hand-written colliding-hash Cow key and a non-aggregating branch), WorkerSink with 1-4 producers and a 1 h / 0 / 100 us / 2 ms periodic flush, embedded Aggregate and MutexSink: one aggregate per key per flush with exact sums / distributions / keep-last, conservation over all epochs, flush barrier, worker termination after the last handle is dropped.",
+         "Generated sequences of keyed inputs, flushes and merge-on-drop guards through KeyedAggregator, TeeSink (incl. a hand-written colliding-hash Cow key and a non-aggregating branch), WorkerSink with 1-4 producers and a 1 h / 0 / 100 us / 2 ms periodic flush, a stalled worker with up to 20 000 entries queued behind it, embedded Aggregate and MutexSink: one aggregate per key per flush with exact sums / distributions / keep-last, conservation over all epochs, flush barrier, worker termination after the last handle is dropped.",
          "Reference accumulator is a BTreeMap written from the docs; worker/producer interleavings sampled natively.",
          "DESIGN.md §2 C10"),
  "C17": ("stateful proptest histories over worker threads and tokio runtimes against a reference routing state machine; append-vs-detach race; child processes for forget()",
@@ -20,7 +20,7 @@ CHECKS = {
          "One history at a time per process (statics); thread/runtime identity by index; races sampled.",
          "DESIGN.md §2 C17"),
  "C20": ("proptest multi-phase scripts with real updater/reader threads; conservation invariants over all readouts; RecLog replay of each readout; the MetricReporter task on a tokio runtime with a capturing sink",
-         "Generated update scripts (counter increments, histogram samples, gauge sets, describe calls) run on 1-8 threads while a reader thread calls readout() at generated points: counter deltas sum to the increments, histogram bucket counts to the samples (values within bucket error), gauges read the last set value, every readout writes names / label-dimensions / described units (all 18 facade units) / injected timestamp and is accepted by Emf::all_validations; through MetricReporter the periodic readouts plus the final one at shutdown carry every update.",
+         "Generated update scripts (counter increments, histogram samples through record and record_many, gauge sets, describe calls) run on 1-8 threads while a reader thread calls readout() at generated points: counter deltas sum to the increments, histogram bucket counts to the samples (values within bucket error), gauges read the last set value, every readout writes names / label-dimensions / described units (all 18 facade units) / injected timestamp and is accepted by Emf::all_validations; through MetricReporter the periodic readouts plus the final one at shutdown carry every update.",
          "Update/readout interleavings sampled natively; one writer per gauge key; units asserted at quiescent points.",
          "DESIGN.md §2 C20"),
  "C06": ("exhaustive enumeration of drop orders (bounded counts) + proptest long sequences + thread-distributed final drops; 15-line reference model of the keep-alive protocol; counting sink with started-flag snapshots",
@@ -32,15 +32,15 @@ CHECKS = {
          "tokio oneshot / Arc internals run natively; interleavings sampled.",
          "DESIGN.md §2 C13"),
  "C01": ("proptest-generated producer scripts + fuel/fault/jitter scripts on real threads; exactly-once / order invariant over a global event log",
-         "Schedule- and input-sampling: 1-6 real producer threads run generated op scripts against the real queue and writer thread; stream results, writer progress (fuel gate), perturbation points and whether shut_down() meets a backlog are part of the generated case. After shutdown the event log must show every appended entry exactly once, per-producer order, only rate-limited in-band reports as extras.",
+         "Schedule- and input-sampling: 1-6 real producer threads run generated op scripts against the real queue and writer thread; stream results, writer progress (fuel gate), perturbation points, whether the end meets a backlog and whether it is shut_down() or forget() + last-handle drop are part of the generated case. After shutdown the event log must show every appended entry exactly once, per-producer order, only rate-limited in-band reports as extras.",
          "Interleavings inside crossbeam/std/tokio primitives are sampled natively, not enumerated; absence is not claimed. Trusts the event log (one mutex, linearised).",
          "DESIGN.md §2 C01"),
  "C04": ("stateful proptest over the real WakerTracker (hook H2a) with a model ring buffer + thread-level fuel-gated runs; barrier invariant over the event log; liveness by counting pops",
-         "Two levels: (1) model-based state-machine exploration of the real WakerTracker with real FlushSignals: barrier (S1), busy-loop freedom (S2) and bounded completion (L1, counted in handle calls / written entries); (2) real queue with a fuel-gated stream and a producer that keeps the queue non-empty: completion within capacity+128 written entries, barrier over the log, immediate completion after shutdown.",
+         "Two levels: (1) model-based state-machine exploration of the real WakerTracker with real FlushSignals: barrier (S1), busy-loop freedom (S2) and bounded completion (L1, counted in handle calls / written entries); (2) real queue with a fuel-gated stream and a producer that keeps the queue non-empty: completion within capacity+128 written entries, barrier over the log, immediate completion after shutdown; (3) 0-240 flush requests from 1-4 threads while the writer is held inside the stream: none may complete before its barrier.",
          "Level 1 assumes the preconditions documented in the source for WakerTracker's caller; the send/try_recv/park interleaving is only exercised natively at level 2.",
          "DESIGN.md §2 C04"),
  "C05": ("stateful proptest histories (append/clone/drop/flush/forget/drop-handle, typed, boxed, global sink) with a fuel-gated stream; invariant over the event log; termination decided by counting periodic flushes",
-         "Generated shutdown histories on real threads: the join/attach handle is dropped while entries are still queued (also by a guard object during panic unwinding, also while another thread keeps appending to the global), or forgotten with all queue handles dropped (also while the writer is inside a periodic flush); the log must show drain, flush-after-last-entry, stream drop, and silence afterwards; the forgotten queue must close its stream before 60 further periodic flushes.",
+         "Generated shutdown histories on real threads: the join/attach handle is dropped while entries are still queued (also by a guard object during panic unwinding, also while another thread keeps appending to the global), or forgotten with all queue handles dropped (also while the writer is inside a periodic flush, also with unawaited flush futures still alive); the log must show drain, flush-after-last-entry, stream drop, and silence afterwards; the forgotten queue must close its stream before 60 further periodic flushes.",
          "Thread interleavings sampled; 'runs forever' is decided by counting the writer's own periodic flushes, wall-clock only yields inconclusive.",
          "DESIGN.md §2 C05"),
  "C09": ("proptest append/progress scripts on a stalled (fuel-gated) writer, 1-4 producers; sound necessary conditions N1-N5 over the event log; overflow counter from a local metrics recorder",
